@@ -3,6 +3,10 @@ import json, os
 import vcheck
 from vcheck import sh, BIN, REPO
 
+GO_CMDS = ["gengrammar", "h_parse"]
+TRANSLATORS = ["gengrammar"]
+COQ_PROJECTS = ["Grammar"]
+
 TRUSTED = vcheck.STD_TRUSTED + [
     "translator harness/cmd/gengrammar (reads grammar.BQL()/SemanticBQL() values by reflection, writes GrammarGen.v)",
     "witness search is untrusted: every witness is re-checked by the model parser inside Coq and by the real parser",
